@@ -13,6 +13,7 @@ pairs of valid syndromes are run for each deterministic decoder.
 import copy
 import gc
 import hashlib
+import sys
 
 import numpy as np
 
@@ -86,6 +87,40 @@ def make_decoder(code, noise, d):
     from panqec.config import DECODERS as D
     name, params = DEC[d['kind']]
     return D[name](code, noise, d['rate'], **params)
+
+
+class _Hang(Exception):
+    pass
+
+
+class DecodeTracer:
+    """Counts traced line events inside panqec/decoders/* during one decode
+    call; raises KeyboardInterrupt at the chosen one (Ctrl-C inside decode)
+    and gives up with _Hang beyond a cap (a decode that never returns)."""
+
+    PREFIX = seams.REPO + 'decoders' + '/'
+
+    def __init__(self, ki_at=None, cap=3_000_000):
+        self.ki_at = ki_at
+        self.cap = cap
+        self.n = 0
+        self.fired = None
+
+    def _g(self, frame, event, arg):
+        if frame.f_code.co_filename.startswith(self.PREFIX):
+            return self._l
+        return None
+
+    def _l(self, frame, event, arg):
+        if event == 'line':
+            self.n += 1
+            if self.ki_at is not None and self.n == self.ki_at:
+                self.fired = [frame.f_code.co_filename[len(seams.REPO):],
+                              frame.f_lineno]
+                raise KeyboardInterrupt()
+            if self.n > self.cap:
+                raise _Hang()
+        return self._l
 
 
 def arr_digest(a):
@@ -200,8 +235,13 @@ def gen_history(seed):
         if r < 0.88:
             e = gen_error(rng, n, prev)
             prev = e
-            ops.append({'op': 'decode', 'dec': rng.randrange(n_dec),
-                        'error': e})
+            op = {'op': 'decode', 'dec': rng.randrange(n_dec), 'error': e}
+            if rng.random() < 0.08:
+                # Ctrl-C at the j-th traced line inside this decode call
+                op['ki_line'] = rng.choice([rng.randint(1, 60),
+                                            rng.randint(1, 600),
+                                            rng.randint(1, 6000)])
+            ops.append(op)
         elif r < 0.95:
             ops.append({'op': 'cache_clear'})
         else:
@@ -274,6 +314,7 @@ def execute_here(plan, keep_events=False):
             ops = plan['ops']
         last = {}
         returned = {}     # decoder index -> (array object, digest)
+        watch = set()     # decoders whose previous call was interrupted
         dtype = plan.get('syn_dtype', 'native')
         rc = None
         for oi, op in enumerate(ops):
@@ -299,7 +340,37 @@ def execute_here(plan, keep_events=False):
             def call():
                 raw['r'] = dec.decode(s)
                 return raw['r']
-            got = outcome_of(call)
+            tracer = None
+            if op.get('ki_line') is not None:
+                tracer = DecodeTracer(ki_at=op['ki_line'])
+            elif di in watch:
+                # first call after an interrupted one: watched for
+                # non-termination
+                tracer = DecodeTracer()
+                watch.discard(di)
+            if tracer is not None:
+                sys.settrace(tracer._g)
+                try:
+                    try:
+                        got = outcome_of(call)
+                    finally:
+                        sys.settrace(None)
+                except KeyboardInterrupt:
+                    # the caller catches the interrupt and carries on with
+                    # the same decoder object
+                    sim.count_fault('ki:inside_decode')
+                    sim.log.add(proc.pid, 'decode-ki', [di, tracer.fired])
+                    watch.add(di)
+                    returned.pop(di, None)
+                    continue
+                except _Hang:
+                    violate('decode_does_not_terminate', {
+                        'decoder': dspec['kind'], 'call': oi,
+                        'after_interrupted_call': True,
+                        'error': op['error']})
+                    break
+            else:
+                got = outcome_of(call)
             n_calls += 1
             # an array handed out by an earlier call must not change under
             # the caller's feet when the decoder is used again
